@@ -58,7 +58,12 @@
 (*                                                                         *)
 (* Left nondeterministic (the property leaves it open):                    *)
 (*   - every interleaving of forwarder, exchange, engine and shutdown      *)
-(*     tasks, within a run and across runs (schedules);                    *)
+(*     tasks, within a run and across runs (schedules) - in particular the *)
+(*     forwarder may take ARBITRARILY LONG between two items and before it *)
+(*     ends (a data source that loads lazily, sleeps, reconnects): there   *)
+(*     is no bound within which Forward must happen, and SendShutdown      *)
+(*     stays disabled until the forwarder has finished, however long that  *)
+(*     takes - no timeout may stand in for ForwarderDone;                  *)
 (*   - the delivery order of account events (nothing about an order        *)
 (*     precedes its sending; each event is delivered at most once) - the   *)
 (*     mock exchange answers every order from its own spawned task, so     *)
@@ -73,6 +78,8 @@
 (* on a fatal error"); it is model-checked but not driven in the            *)
 (* implementation (there shutdown_after_backtest may find the feed receiver *)
 (* dropped and panic - outside C20).                                        *)
+(* Dataset items are ALL items of the market stream, Reconnecting items     *)
+(* ("r") included, wherever they stand - also before the first market item.*)
 (* Fixed by the property (NOT left open): market items reach the engine in *)
 (* dataset order, each once; Shutdown is sent only after the forwarder     *)
 (* finished; a run reads and writes its own record only.                   *)
